@@ -260,8 +260,8 @@ def plans_for(chk):
     sc = oq.scale()
     if chk.quick:
         return [("InitPart1", dict(base, K=1, GridKeepF=max(1, int(25 * sc)), GridKeep=max(1, int(30 * sc)), NQ=int(1000 * sc)))]
-    return [("InitPart1", dict(base, K=1, NQ=int(2500 * sc))),
-            ("InitPart1", dict(base, K=0, NQ=int(2500 * sc), NP=2, NC=3, NG=3))]
+    return [("InitPart1", dict(base, K=1, GridKeepF=60, GridKeep=60, NQ=int(2000 * sc))),
+            ("InitPart1", dict(base, K=0, NQ=int(2000 * sc), NP=2, NC=3, NG=3))]
 
 
 def main(chk):
